@@ -11,7 +11,8 @@ freedom so that the rules see one spelling:
 * ``not (a == b)`` -> ``a != b`` (and the other single comparisons), ``not not c`` -> ``c``
 * ``X if not c else Y`` -> ``Y if c else X``;  ``if not c: A else: B`` -> ``if c: B else: A`` (no elif chain); the same for the
   negative comparisons ``!=``, ``not in``, ``is not`` and for ``a <= b`` (written ``b < a`` with the branches exchanged)
-* ``range(0, n)`` -> ``range(n)``
+* ``range(0, n)`` -> ``range(n)``;  ``1 + i`` -> ``i + 1`` (integer constant operand of + and * goes to the right)
+* ``if a: if b: X`` -> ``if a and b: X`` (no else branches);  a loop body ``if c: continue; REST`` -> ``if not c: REST``
 * ``x = x + 1`` -> ``x += 1`` (name target, integer constant)
 * ``t = E; return t`` -> ``return E`` when ``t`` is a plain local that no nested function or lambda refers to
 
@@ -107,6 +108,12 @@ class Canon(ast.NodeTransformer):
         self.generic_visit(node)
         node.body = self._stmts(node.body)
         node.orelse = self._stmts(node.orelse)
+        if not node.orelse and len(node.body) == 1 and isinstance(node.body[0], ast.If) and not node.body[0].orelse:
+            # if a: if b: X  ->  if a and b: X
+            inner = node.body[0]
+            vals = (list(node.test.values) if isinstance(node.test, ast.BoolOp) and isinstance(node.test.op, ast.And) else [node.test]) + \
+                   (list(inner.test.values) if isinstance(inner.test, ast.BoolOp) and isinstance(inner.test.op, ast.And) else [inner.test])
+            return ast.copy_location(ast.If(test=ast.copy_location(ast.BoolOp(op=ast.And(), values=vals), node.test), body=inner.body, orelse=[]), node)
         if node.orelse and not (len(node.orelse) == 1 and isinstance(node.orelse[0], ast.If)) and not (len(node.body) == 1 and isinstance(node.body[0], ast.If) and node.body[0].orelse):
             t, flipped = self._positive(node.test)
             if flipped:
@@ -118,6 +125,12 @@ class Canon(ast.NodeTransformer):
         if isinstance(node.func, ast.Name) and node.func.id == "range" and len(node.args) == 2 and not node.keywords and isinstance(node.args[0], ast.Constant) and node.args[0].value == 0 \
                 and type(node.args[0].value) is int:
             node.args = [node.args[1]]
+        return node
+
+    def visit_BinOp(self, node: ast.BinOp):
+        self.generic_visit(node)
+        if isinstance(node.op, (ast.Add, ast.Mult)) and isinstance(node.left, ast.Constant) and type(node.left.value) is int and not isinstance(node.right, ast.Constant):
+            return ast.copy_location(ast.BinOp(left=node.right, op=node.op, right=node.left), node)
         return node
 
     def visit_Assign(self, node: ast.Assign):
@@ -174,7 +187,24 @@ class Canon(ast.NodeTransformer):
                 setattr(node, field, self._stmts(lst))
         return node
 
-    visit_For = visit_While = visit_With = visit_Try = visit_ExceptHandler = _body_holder
+    def _loop(self, node):
+        node = self._body_holder(node)
+        b = node.body
+        # for x in it: if c: continue; REST   ->   for x in it: if not c: REST
+        if len(b) >= 2 and isinstance(b[0], ast.If) and not b[0].orelse and len(b[0].body) == 1 and isinstance(b[0].body[0], ast.Continue):
+            neg = self.visit(ast.copy_location(ast.UnaryOp(op=ast.Not(), operand=b[0].test), b[0].test))
+            node.body = [self.visit_If(ast.copy_location(ast.If(test=neg, body=b[1:], orelse=[]), b[0]))] if False else [ast.copy_location(ast.If(test=neg, body=b[1:], orelse=[]), b[0])]
+            # the new if may now wrap a single if: merge
+            only = node.body[0]
+            if len(only.body) == 1 and isinstance(only.body[0], ast.If) and not only.body[0].orelse:
+                inner = only.body[0]
+                vals = (list(only.test.values) if isinstance(only.test, ast.BoolOp) and isinstance(only.test.op, ast.And) else [only.test]) + \
+                       (list(inner.test.values) if isinstance(inner.test, ast.BoolOp) and isinstance(inner.test.op, ast.And) else [inner.test])
+                node.body = [ast.copy_location(ast.If(test=ast.copy_location(ast.BoolOp(op=ast.And(), values=vals), only.test), body=inner.body, orelse=[]), only)]
+        return node
+
+    visit_For = visit_While = _loop
+    visit_With = visit_Try = visit_ExceptHandler = _body_holder
 
 
 def canonicalise(tree: ast.Module) -> ast.Module:
